@@ -127,7 +127,15 @@ def run_case(rec, rng, rngkey=None):
     if rng.random() < 0.55:
         i = rng.randrange(len(shapes) + (1 if retshape is not None else 0))
         tgt = shapes[i] if i < len(shapes) else retshape
-        if tgt:
+        k = rng.random()
+        if tgt and k < 0.2:
+            del tgt[:]  # the offending value is a rank-0 array (eagerly printable by value, a tracer is not)
+            rec.count("perturbed_to_rank0")
+        elif tgt and k < 0.35:
+            del tgt[rng.randrange(len(tgt))]
+        elif tgt and k < 0.45:
+            tgt.insert(rng.randint(0, len(tgt)), rng.choice((1, 2, 3)))
+        elif tgt:
             j = rng.randrange(len(tgt))
             tgt[j] = rng.choice([z for z in (1, 2, 3, 4, 5) if z != tgt[j]])
         else:
